@@ -20,10 +20,11 @@ def get_circle_point_list(center, normal, radius, n=10):
         )
     import math, copy
 
-    if normal.angle(x_unit_vector()) < SMALL_ANGLE:
+    # the base vector must not be (nearly) parallel to the normal, no
+    # matter whether the normal points along +x or along -x
+    angle_to_x = normal.angle(x_unit_vector())
+    if angle_to_x < SMALL_ANGLE or math.pi - angle_to_x < SMALL_ANGLE:
         base_vector = y_unit_vector()
-        if normal.angle(y_unit_vector()) < SMALL_ANGLE:
-            raise ValueError("Bug detected! please contact the author")
     else:
         base_vector = x_unit_vector()
     v1 = normal.normalized().cross(base_vector).normalized()
